@@ -133,7 +133,7 @@ Definition somes {A} (l : list (option A)) : list A :=
 
 Global Instance tp_N : ToPiece N := PN.
 
-Definition nl : string := String (ascii_of_nat 10) EmptyString.
+Definition nl : string := String (Ascii false true false true false false false false) EmptyString.   (* "\n" *)
 
 Class OfInt (A : Type) := of_int : Z -> A.
 Global Instance ofint_Z : OfInt Z := fun z => z.
